@@ -1018,7 +1018,28 @@ func c13RoundE(c *Ctx, w *World) {
 			for b := range naturalLoop(hdr) {
 				if iff, ok := b.Instrs[len(b.Instrs)-1].(*ssa.If); ok {
 					if bo, isB := iff.Cond.(*ssa.BinOp); isB && (bo.Op == token.LSS || bo.Op == token.LEQ) {
-						if k, isK := constInt(bo.Y); isK {
+						k, isK := constInt(bo.Y)
+						if !isK {
+							// len(x[:16]): a range over a constant-bounded slice of the children
+							if lc, isCall := bo.Y.(*ssa.Call); isCall {
+								if bi, isB := lc.Call.Value.(*ssa.Builtin); isB && bi.Name() == "len" && len(lc.Call.Args) == 1 {
+									if sl, isSl := lc.Call.Args[0].(*ssa.Slice); isSl && sl.High != nil {
+										if hk, okH := constInt(sl.High); okH {
+											lo := int64(0)
+											if sl.Low != nil {
+												if lk, okL := constInt(sl.Low); okL {
+													lo = lk
+												}
+											}
+											if lo == 0 {
+												k, isK = hk, true
+											}
+										}
+									}
+								}
+							}
+						}
+						if isK {
 							// is this the exit test of the loop?
 							exits := false
 							for _, sc := range b.Succs {
@@ -1058,10 +1079,23 @@ func c13RoundE(c *Ctx, w *World) {
 			n++
 			c.sites++
 			key := callArgs(ci)[0]
-			isRlp := func(cc ssa.CallInstruction) bool {
+			var isRlpD func(cc ssa.CallInstruction, depth int) bool
+			isRlpD = func(cc ssa.CallInstruction, depth int) bool {
 				co := calleeObj(cc)
-				return co != nil && co.Pkg() != nil && co.Pkg().Path() == full("rlp")
+				if co != nil && co.Pkg() != nil && co.Pkg().Path() == full("rlp") {
+					return true
+				}
+				// a helper of this package that encodes with the rlp package
+				if g := cc.Common().StaticCallee(); g != nil && g.Pkg == ds.Pkg && g.Blocks != nil && depth < 2 {
+					for _, cj := range callInstrs(g) {
+						if isRlpD(cj, depth+1) {
+							return true
+						}
+					}
+				}
+				return false
 			}
+			isRlp := func(cc ssa.CallInstruction) bool { return isRlpD(cc, 0) }
 			ok := derivesFrom(key, func(x ssa.Value) bool {
 				cc, isC := x.(*ssa.Call)
 				return isC && isRlp(cc)
